@@ -50,7 +50,7 @@ def run(ctx):
     if not (can_run and ok_d and ok_r):
         common.broken_without_input(ctx, "build", (ctx.notes[-1] if ctx.notes else "") + log_d + log_r)
         return
-    k = 4 if ctx.thorough() else 1
+    k = ctx.scale(4)
     rng = ctx.rng
     known = lib.load_known("C06")
     known_classes = set(x["class"] for x in known)
